@@ -25,7 +25,7 @@ EARLY = [
     "3(X)", "3(nx)", "3([X])", "3(1[[x]])", "3(n[X|x])", "1{X}", "2→c {←c |←c ‹→c x}", "2→c {←c |←c ‹→c [X]}", "λX;†", "1λ[X];†",
     "λ1[X|2];†", "@h|1X2;@h;", "@h|1[X];@h;", "3ɾƛX;L", "3ɾƛ[X];L", "3ɾ'X;L", "⟨X|1⟩", "3(⟨X⟩)", "3(⟨x⟩)", "3(λX;†)", "λ3(X);†",
     "λ2(nx);†", "3(vX)", "3λ:[‹x];†", "2(1{X})", "2(2(X)X)", "@h|2(X)n;@h;", "λ2(X)X;†", "2(λ1[X];†x)", "3ɾƛ2(X);L", "1{λX;†X}",
-    "λ0|5X;†", "λ0|X;†", "4 5λ2|X;†", "1(1£{X¥|0£})", "2(1£{x¥|0£})", "λ1£{X¥|0£};†", "1(0 1{X|})", "@h:1|X;4@h;", "@h:a|←a X;4@h;", "7λλ0|1X;†__;†",
+    "⟨⟩", "⟨1|2_⟩", "⟨_⟩", "⟨1|⟩_ 4`5+`Ė", "7λ3(1 2v+X);†", "3(1 2v+X)", "λ0|5X;†", "λ0|X;†", "4 5λ2|X;†", "1(1£{X¥|0£})", "2(1£{x¥|0£})", "λ1£{X¥|0£};†", "1(0 1{X|})", "@h:1|X;4@h;", "@h:a|←a X;4@h;", "7λλ0|1X;†__;†",
 ]
 PROBES = ["n", "λn;†", "2(n)", "`n`Ė", "@p|n;@p;", "2ɾƛn;L"]
 MENU = ATOMS + STRUCTS + EARLY
@@ -41,7 +41,7 @@ CHAIN = [
     ("lambda2", "4 5λ2|", ";†", False),
     ("function-args", "4 5@z:1:b|", ";@z;", False),
 ]
-LEAVES = ["X", "x", "n", "n,", "1X2", ":[X]"]
+LEAVES = ["X", "x", "n", "n,", "1X2", ":[X]", "1 2v+X", "[X]9"]
 
 
 def chain_ok(chain, leaf):
@@ -140,14 +140,15 @@ def judge(part, hist, st, kind):
 
 
 def _chain_shard(args):
-    firsts, depth = args
+    firsts, depth = args[:2]
+    leaves = args[2] if len(args) > 2 else LEAVES
     part = explore.Partial()
     for f in firsts:
         f = f if isinstance(f[0], tuple) else (f,)
         for d in range(0, depth - len(f) + 1):
             for rest in itertools.product(CHAIN, repeat=d):
                 chain = tuple(f) + rest
-                for leaf in LEAVES:
+                for leaf in leaves:
                     if not chain_ok(chain, leaf):
                         continue
                     text = chain_text(chain, leaf)
@@ -213,7 +214,9 @@ def run(tier, seed):
     cd = 4
     base = CHAIN[:9]   # depth 4 over the nine basic elements; the four extra ones (while condition, lambda arities, function
     extra = CHAIN[9:]  # arguments) are combined with everything up to depth 3
-    sh = [([c], 1) for c in CHAIN] + [([(a, b)], cd) for a in base for b in base]
+    old_leaves, new_leaves = [LEAVES[0], LEAVES[1], LEAVES[2], LEAVES[4]], [LEAVES[3], LEAVES[5]] + LEAVES[6:]
+    sh = [([c], 1) for c in CHAIN] + [([(a, b)], cd, old_leaves) for a in base for b in base]
+    sh += [([(a, b)], 3, new_leaves) for a in base for b in base]
     sh += [([(a, b)], 3) for a in CHAIN for b in CHAIN if a in extra or b in extra]
     sh += [([(a, b, c)], 3) for a in base for b in base for c in extra]
     explore.pmap(_chain_shard, sh, rep, seed)
